@@ -343,13 +343,13 @@ impl TextSelection {
                 + match offset.begin {
                     Cursor::BeginAligned(x) => x,
                     Cursor::EndAligned(x) => {
-                        if textlen < x.abs() as usize {
+                        if textlen < x.unsigned_abs() {
                             return Err(StamError::CursorOutOfBounds(
                                 offset.begin,
                                 "(textselection_by_offset)",
                             ));
                         } else {
-                            textlen - (x.abs() as usize)
+                            textlen - x.unsigned_abs()
                         }
                     }
                 },
@@ -359,13 +359,13 @@ impl TextSelection {
                 + match offset.end {
                     Cursor::BeginAligned(x) => x,
                     Cursor::EndAligned(x) => {
-                        if textlen < x.abs() as usize {
+                        if textlen < x.unsigned_abs() {
                             return Err(StamError::CursorOutOfBounds(
                                 offset.end,
                                 "(textselection_by_offset)",
                             ));
                         } else {
-                            textlen - (x.abs() as usize)
+                            textlen - x.unsigned_abs()
                         }
                     }
                 },
@@ -379,13 +379,13 @@ impl TextSelection {
         match *cursor {
             Cursor::BeginAligned(cursor) => Ok(cursor),
             Cursor::EndAligned(cursor) => {
-                if cursor.abs() as usize > textlen {
+                if cursor.unsigned_abs() > textlen {
                     Err(StamError::CursorOutOfBounds(
                         Cursor::EndAligned(cursor),
                         "TextResource::beginaligned_cursor(): end aligned cursor ends up before the beginning",
                     ))
                 } else {
-                    Ok(textlen - cursor.abs() as usize)
+                    Ok(textlen - cursor.unsigned_abs())
                 }
             }
         }
